@@ -1,5 +1,5 @@
 CONSTANTS
-  MaxN = 6
+  MaxN = 8
   Ages = {10, 17, 24, 25, 40, 70}
   NHH = 2
   Family = TRUE
